@@ -183,11 +183,11 @@ def b_multipitch(nf=1):
     return build
 
 
-def b_notes(offset_ratio='default', velocity=False, tol_kw=()):
+def b_notes(offset_ratio='default', velocity=False, tol_kw=(), grid=10000):
     def build(ctx, size):
         n, m = size
-        ri = C.note_intervals(ctx, 'r', n)
-        ei = C.note_intervals(ctx, 'e', m)
+        ri = C.note_intervals(ctx, 'r', n, grid=grid)
+        ei = C.note_intervals(ctx, 'e', m, grid=grid)
         rp = C.log_freqs(ctx, 'rp', n)
         ep = C.log_freqs(ctx, 'ep', m)
         kw = {}
